@@ -43,7 +43,7 @@ func init() {
 	props["C11"] = &propImpl{
 		shards: func(cfg vlib.Cfg) int { return cfg.N(16, 32) },
 		run:    runC11,
-		rule: "c11.tree: PRNG query trees over all 18 operators, and/or/not nesting (depth <= 4 quick / 6 thorough, arity 2-4), key prefixes, orderby/limit/offset, operands: int64 boundaries, floats, booleans, strings and keys over an alphabet with space, tab, newline, quote, backslash, parentheses, comma, multi-byte runes, leading/trailing specials; only trees passing Check(); " +
+		rule: "c11.tree: PRNG query trees over all 18 operators, and/or/not nesting (depth <= 4 quick / 6 thorough, arity 1-4), key prefixes, orderby/limit/offset, operands: int64 boundaries, floats, booleans, strings and keys over an alphabet with space, tab, newline, quote, backslash, parentheses, comma, multi-byte runes, leading/trailing specials; only trees passing Check(); " +
 			"c11.grammar: texts of the README grammar (grouping, no and/or mixing, both not forms, every operator alias, quoted and backslash-escaped tokens, free whitespace) with their intended AST; c11.text: token soups, mutations of valid texts (drop/duplicate/swap tokens, unbalanced quotes and parentheses, trailing backslash, truncation inside multi-byte runes), random bytes. " +
 			"Witnesses: per query ~48 records derived from its own operands (each as struct record and as JSON wrapper) plus fixed ones, and sample keys around the prefix. distinct = distinct (class,input); non-trivial = the query passed Check() and was compared (tree/grammar), or ParseQuery returned (text)",
 		finish: func(cfg vlib.Cfg, r *vlib.Report) {
@@ -53,7 +53,7 @@ func init() {
 			r.Floor(r.SeenCount("operators") >= 18, "operators seen: %d of 18", r.SeenCount("operators"))
 			r.Floor(r.Counter("witness_true") > 0 && r.Counter("witness_false") > 0, "witness records did not discriminate")
 			r.Assume("witness agreement is demanded between the same query before and after the text round trip (Q1) and between the parsed query and the harness evaluator of the intended AST on typed keys (Q3); struct-vs-JSON accessor differences are never compared")
-			r.Assume("main generator stays inside what the text syntax can express: keys other than and/or/not/(/), In with >= 2 comma-free operands, groups of >= 2 conditions, limit/offset within 0..2^31-1; the excluded shapes are exercised by the fixed c11.edge list")
+			r.Assume("main generator stays inside what the text syntax can express: keys other than and/or/not/(/), In with >= 2 comma-free operands, non-empty groups, limit/offset within 0..2^31-1; the excluded shapes are exercised by the fixed c11.edge list")
 		},
 	}
 	classes["c11.tree"] = func(c *ctx, in []byte) {
@@ -696,12 +696,16 @@ func (g *c11Gen) tree(depth int) *c11Node {
 		}
 		return l
 	}
-	switch r.Intn(7) {
+	switch r.Intn(6) {
 	case 0:
 		return &c11Node{Kind: "not", Kids: []*c11Node{g.tree(depth + 1)}}
 	default:
 		n := &c11Node{Kind: vlib.Pick(r, "and", "or")}
-		for i, cnt := 0, r.Range(2, 4); i < cnt; i++ {
+		cnt := r.Range(2, 4)
+		if r.Chance(1, 6) {
+			cnt = 1 // single-condition group, also nested in each other and between negations
+		}
+		for i := 0; i < cnt; i++ {
 			n.Kids = append(n.Kids, g.tree(depth+1))
 		}
 		return n
@@ -745,7 +749,7 @@ func c11InMainClass(q c11Query) bool {
 		}
 		switch n.Kind {
 		case "and", "or":
-			if len(n.Kids) < 2 {
+			if len(n.Kids) < 1 { // a group of one prints as its condition (since the C11-7 fix)
 				ok = false
 			}
 		case "not":
@@ -1634,6 +1638,9 @@ var c11Edges = []c11EdgeCase{
 	{"single-child-group-nested", c11Query{Prefix: "t:", Where: c11G("and", c11G("and", c11L("I", query.Equals)), c11L("S", query.SameAs))}},
 	{"single-child-group-root", c11Query{Prefix: "t:", Where: c11G("or", c11L("I", query.Equals))}},
 	{"single-child-group-under-not", c11Query{Prefix: "t:", Where: c11G("not", c11G("or", c11L("S", query.SameAs)))}},
+	{"not-over-single-group-over-not", c11Query{Prefix: "t:", Where: c11G("not", c11G("and", c11G("not", c11L("I", query.Equals))))}},
+	{"not-over-nested-single-groups-over-not", c11Query{Prefix: "t:", Where: c11G("not", c11G("or", c11G("and", c11G("or", c11G("not", c11L("S", query.SameAs))))))}},
+	{"not-over-single-group-over-not-group", c11Query{Prefix: "t:", Where: c11G("and", c11L("B", query.Exists), c11G("not", c11G("and", c11G("not", c11G("or", c11L("I", query.Equals), c11L("S", query.SameAs))))))}},
 	{"limit-above-int31", c11Query{Prefix: "t:", Limit: 1 << 31}},
 	{"negative-limit", c11Query{Prefix: "t:", Limit: -1, Offset: -5}},
 }
